@@ -158,6 +158,11 @@ func (e *Exec) checkLockDeclared(st *State, instr ssa.Instruction, l Val) {
 		return
 	}
 	fr0 := st.frames[0]
+	for _, al := range e.fc.AnyLocks {
+		if al == l.Sub.Owner+"."+l.Sub.Path {
+			return
+		}
+	}
 	for _, le := range e.fc.Locks {
 		ctx := &evalCtx{st: st, fr: fr0, scope: map[string]Val{}, entryScope: e.entryParams(), paramsFirst: true}
 		lv, err := e.evalTop(ctx, le, nil)
